@@ -52,14 +52,17 @@ var c10Alphabet = map[string]c10Entry{
 	"REC(a)": {model.Sym{Kind: model.SRecord, Name: "a"}, ev.Event{K: ev.Record, Bs: []byte("a")}},
 	"REC(b)": {model.Sym{Kind: model.SRecord, Name: "b"}, ev.Event{K: ev.Record, Bs: []byte("b")}},
 	// extras used by the random part only
-	"TRUE":  {model.Sym{Kind: model.SKeyable, KeyID: "b:true"}, ev.Event{K: ev.True}},
-	"UID":   {model.Sym{Kind: model.SKeyable, KeyID: "u:0"}, ev.Event{K: ev.UID, Bs: make([]byte, 16)}},
-	"NAN":   {model.Sym{Kind: model.SNonKeyable}, ev.Event{K: ev.Nan}},
-	"BIGF":  {model.Sym{Kind: model.SNonKeyable}, ev.Event{K: ev.DFloat}},
-	"RID":   {model.Sym{Kind: model.SKeyable, KeyID: "r:x"}, ev.Event{K: ev.Array, AT: events.ArrayTypeResourceID, U: 1, Bs: []byte("x")}},
-	"MEDIA": {model.Sym{Kind: model.SNonKeyable}, ev.Event{K: ev.Media, S: "a/b", Bs: []byte{1}}},
-	"K3":    {model.Sym{Kind: model.SKeyable, KeyID: "i:-3"}, ev.Event{K: ev.NInt, U: 3}},
-	"S2":    {model.Sym{Kind: model.SKeyable, KeyID: "s:bb"}, ev.Event{K: ev.Array, AT: events.ArrayTypeString, U: 2, Bs: []byte("bb")}},
+	// a record type whose name differs from "a" in letter case only: a different identifier
+	"RT(A)":  {model.Sym{Kind: model.SRecordType, Name: "A"}, ev.Event{K: ev.RecordType, Bs: []byte("A")}},
+	"REC(A)": {model.Sym{Kind: model.SRecord, Name: "A"}, ev.Event{K: ev.Record, Bs: []byte("A")}},
+	"TRUE":   {model.Sym{Kind: model.SKeyable, KeyID: "b:true"}, ev.Event{K: ev.True}},
+	"UID":    {model.Sym{Kind: model.SKeyable, KeyID: "u:0"}, ev.Event{K: ev.UID, Bs: make([]byte, 16)}},
+	"NAN":    {model.Sym{Kind: model.SNonKeyable}, ev.Event{K: ev.Nan}},
+	"BIGF":   {model.Sym{Kind: model.SNonKeyable}, ev.Event{K: ev.DFloat}},
+	"RID":    {model.Sym{Kind: model.SKeyable, KeyID: "r:x"}, ev.Event{K: ev.Array, AT: events.ArrayTypeResourceID, U: 1, Bs: []byte("x")}},
+	"MEDIA":  {model.Sym{Kind: model.SNonKeyable}, ev.Event{K: ev.Media, S: "a/b", Bs: []byte{1}}},
+	"K3":     {model.Sym{Kind: model.SKeyable, KeyID: "i:-3"}, ev.Event{K: ev.NInt, U: 3}},
+	"S2":     {model.Sym{Kind: model.SKeyable, KeyID: "s:bb"}, ev.Event{K: ev.Array, AT: events.ArrayTypeString, U: 2, Bs: []byte("bb")}},
 	// values the validator rewrites before it counts them: a NaN delivered in each number form becomes one
 	// NaN object, a nil big number becomes one null
 	"FNAN":  {model.Sym{Kind: model.SNonKeyable}, ev.Event{K: ev.Float, F: math.NaN()}},
@@ -76,7 +79,7 @@ var c10Alphabet = map[string]c10Entry{
 var c10Enum = []string{"BD", "V0", "V1", "ED", "NULL", "K", "K2", "F", "S", "A", "LIST", "MAP", "EDGE", "NODE", "END", "RT(a)", "RT(b)", "REC(a)", "REC(b)"}
 var c10All = func() []string {
 	out := append([]string{}, c10Enum...)
-	return append(out, "TRUE", "UID", "NAN", "BIGF", "RID", "MEDIA", "K3", "S2", "MK", "MK", "FNAN", "DNAN", "BDNAN", "NILBI", "NILBF", "NILBD")
+	return append(out, "TRUE", "UID", "NAN", "BIGF", "RID", "MEDIA", "K3", "S2", "MK", "MK", "FNAN", "DNAN", "BDNAN", "NILBI", "NILBF", "NILBD", "RT(A)", "REC(A)")
 }()
 
 // implVerdict plays the concrete events into a fresh validator: index of the first rejected event, -1 if none.
